@@ -424,6 +424,32 @@ func buildIdioms() []idiom {
 	add("size-pushdata4-overlimit", newAsm().op(opcode.PUSHDATA4, le32(limItemSize+1)...))
 	add("size-pushdata2", newAsm().op(opcode.PUSHDATA2, append([]byte{0xff, 0xff}, make([]byte, 65535)...)...).ops(opcode.DUP, opcode.CAT, opcode.DUP, opcode.CAT))
 
+	// --- counts far above any limit: every instruction taking a count / index / size must
+	// fault without allocating for it first
+	for _, n := range []int{0x7fffffff, 0x40000000, 0x10000000} {
+		str := func() *asm { return newAsm().op(opcode.PUSHDATA1, 3, 'a', 'b', 'c') }
+		add("huge-count-right", str().push(n).op(opcode.RIGHT))
+		add("huge-count-left", str().push(n).op(opcode.LEFT))
+		add("huge-count-substr", str().push(0).push(n).op(opcode.SUBSTR))
+		add("huge-count-substr-offset", str().push(n).push(1).op(opcode.SUBSTR))
+		add("huge-count-newbuffer", newAsm().push(n).op(opcode.NEWBUFFER))
+		add("huge-count-newarray", newAsm().push(n).op(opcode.NEWARRAY))
+		add("huge-count-newstruct", newAsm().push(n).op(opcode.NEWSTRUCT))
+		add("huge-count-newarrayt", newAsm().push(n).op(opcode.NEWARRAYT, 0x21))
+		add("huge-count-pack", str().push(n).op(opcode.PACK))
+		add("huge-count-packmap", str().push(n).op(opcode.PACKMAP))
+		add("huge-count-packstruct", str().push(n).op(opcode.PACKSTRUCT))
+		add("huge-count-memcpy", newAsm().push(8).op(opcode.NEWBUFFER).push(0).op(opcode.PUSHDATA1, 3, 'a', 'b', 'c').push(0).push(n).op(opcode.MEMCPY))
+		add("huge-count-pick", str().push(n).op(opcode.PICK))
+		add("huge-count-roll", str().push(n).op(opcode.ROLL))
+		add("huge-count-xdrop", str().push(n).op(opcode.XDROP))
+		add("huge-count-reversen", str().push(n).op(opcode.REVERSEN))
+		add("huge-count-pickitem", str().push(n).op(opcode.PICKITEM))
+		add("huge-count-haskey", str().push(n).op(opcode.HASKEY))
+		add("huge-count-shl", newAsm().push(1).push(n).op(opcode.SHL))
+		add("huge-count-pow", newAsm().push(2).push(n).op(opcode.POW))
+	}
+
 	// --- invocation depth
 	add("depth-call-self", newAsm().label("S").jmp(opcode.CALL, "S"))
 	add("depth-calll-self", newAsm().label("S").op(opcode.NOP).jmp(opcode.CALLL, "S"))
